@@ -105,6 +105,7 @@ func c09Mode(o *cli.Opts, run *evid.Run, bin, mode string) {
 	var lat []time.Duration
 	var latMu sync.Mutex
 	var dead bool
+	noAnswer := 0
 	one := func(i int, rq *request) {
 		k := fmt.Sprintf("%s/%d/%s", key, i, rq.class)
 		latMu.Lock()
@@ -123,6 +124,16 @@ func c09Mode(o *cli.Opts, run *evid.Run, bin, mode string) {
 			run.Add("raw_requests", 1)
 		}
 		problem := judgeResponse(ks, rq, rs)
+		if rs.err != nil {
+			// a request that got no answer: after a few of them the history stops (every further request would
+			// wait for the hang watchdog again); the violations already recorded are the verdict
+			latMu.Lock()
+			noAnswer++
+			if noAnswer >= 3 {
+				dead = true
+			}
+			latMu.Unlock()
+		}
 		sample := map[string]any{"mode": mode, "class": rq.class, "method": rq.method, "raw": rq.raw, "expected": rq.expect, "status": rs.status, "body_prefix": truncate(string(rq.body), 200), "response_prefix": truncate(string(rs.body), 160)}
 		if problem != "" {
 			w := map[string]any{"request_body": truncate(string(rq.body), 4000), "method": rq.method, "raw": rq.raw, "response_status": rs.status, "response_body": truncate(string(rs.body), 600)}
